@@ -134,6 +134,18 @@ def country_of(case):
     return (JP() if c == "jp" else IE()), sys.maxsize
 
 
+def near(rng, v):
+    """an exchange-supplied value that (nearly) agrees with the computed one: exact, rounded to the cent, or off by less than a cent /
+    by a few cents — supplied values must be used as given however close they are"""
+    c = U // 100
+    k = rng.random()
+    if k < 0.25: w = v
+    elif k < 0.55: w = (v + c // 2) // c * c
+    elif k < 0.8: w = v + rng.choice([-1, 1]) * rng.randint(1, c // 2 - 1)
+    else: w = v + rng.choice([-1, 1]) * rng.randint(c, 5 * c)
+    return max(w, 1)
+
+
 def gen(rng, prop=None):
     n = rng.randint(2, 14)
     if rng.random() < 0.02:
@@ -177,8 +189,10 @@ def gen(rng, prop=None):
             amt = ramt(rng) if not (many and rng.random() < 0.6) else rng.randint(10**11, 10**15)
             bal[ai] += amt
             typ = rng.choice(["BUY", "GIFT", "DONATE"]) if kind == "buy" else rng.choice(EARN)
-            rows.append(["IN", 0, u, off, typ, ai, price, amt, rng.choice([None, None, 150000000000, rng.randint(1, 10**13)]),
-                         rng.choice([None, None, None, rng.randint(1, 10**16)]), rng.choice([None, None, None, rng.randint(1, 10**16)])])
+            ffee = rng.choice([None, None, 150000000000, rng.randint(1, 10**13), 0])
+            rows.append(["IN", 0, u, off, typ, ai, price, amt, ffee,
+                         rng.choice([None, None, None, rng.randint(1, 10**16), near(rng, amt * price // U)]),
+                         rng.choice([None, None, None, rng.randint(1, 10**16), near(rng, amt * price // U + (ffee or 0))])])
         else:
             have = [a for a in bal if bal[a] > 0]
             if not have:
@@ -190,7 +204,7 @@ def gen(rng, prop=None):
                 fee = rng.choice([0, 0, min(U // 100, max(0, bal[ai] - amt))])
                 bal[ai] -= amt + fee
                 rows.append(["OUT", 0, u, off, rng.choice(["SELL", "GIFT", "DONATE", "LOST", "STAKING"]), ai, price, amt, fee,
-                             rng.choice([None, None, None, amt + fee]) if rng.random() < 0.92 else amt + fee + rng.choice([1, -1, 100, 40000000]), rng.choice([None, None, rng.randint(1, 10**16)]), rng.choice([None, None, rng.randint(0, 10**12)])])
+                             rng.choice([None, None, None, amt + fee]) if rng.random() < 0.92 else amt + fee + rng.choice([1, -1, 100, 40000000]), rng.choice([None, None, rng.randint(1, 10**16), near(rng, amt * price // U)]), rng.choice([None, None, rng.randint(0, 10**12), 0, near(rng, fee * price // U) if fee else 0])])
             elif kind == "fee":
                 f = min(bal[ai], rng.choice([1, U // 1000, U]))
                 bal[ai] -= f
